@@ -48,20 +48,19 @@ func H_C17_Host() {
 	ip := net.ParseIP(host) // oracle: the standard library, not /repo
 	valid := ip != nil
 	addr, herr := a.Host()
-	nd.Assert((herr == nil) == valid, "host/succeeds-iff-ip-literal")
-	nd.Assert(a.HasValidHost() == valid, "host/HasValidHost-agrees")
+	nd.Assert(nd.Implies(herr == nil, valid), "host/succeeds-only-for-ip-literal")
+	nd.Assert(a.HasValidHost() == (herr == nil), "host/HasValidHost-agrees-with-accessor")
+	nd.Assert(nd.Implies(a.HasValidHost(), valid), "host/HasValidHost-only-for-ip-literal")
 	nd.Assert(!nd.Called("net.ResolveIPAddr:non-literal"), "host/no-name-resolution")
-	if valid {
+	if valid && herr == nil {
 		nd.Cover("valid-host")
-		if herr == nil {
-			nd.Assert(addr != nil && addr.String() == ip.String(), "host/returns-that-address")
-		}
+		nd.Assert(addr != nil && addr.String() == ip.String(), "host/returns-that-address")
 		want := "6"
 		if ip.To4() != nil {
 			want = "4"
 		}
 		nd.Assert(a.IPVersion() == want, "host/ipversion-matches-family")
-	} else {
+	} else if !valid {
 		nd.Cover("invalid-host")
 		want := ""
 		if withCaps {
@@ -84,8 +83,8 @@ func H_C17_HostV4() {
 	a := addrFrom(map[string]string{"host": host})
 	ip := net.ParseIP(host)
 	_, herr := a.Host()
-	nd.Assert((herr == nil) == (ip != nil), "hostv4/succeeds-iff-ip-literal")
-	nd.Assert(a.HasValidHost() == (ip != nil), "hostv4/HasValidHost-agrees")
+	nd.Assert(nd.Implies(herr == nil, ip != nil), "hostv4/succeeds-only-for-ip-literal")
+	nd.Assert(a.HasValidHost() == (herr == nil), "hostv4/HasValidHost-agrees-with-accessor")
 	nd.Assert(!nd.Called("net.ResolveIPAddr:non-literal"), "hostv4/no-name-resolution")
 	if ip != nil {
 		nd.Cover("valid-host")
@@ -107,8 +106,8 @@ func H_C17_Port() {
 	v, cerr := strconv.Atoi(port) // oracle: the standard library
 	valid := cerr == nil && v >= 1 && v <= 65535
 	p, perr := a.Port()
-	nd.Assert((perr == nil) == valid, "port/succeeds-iff-decimal-1-65535")
-	nd.Assert(a.HasValidPort() == valid, "port/HasValidPort-agrees")
+	nd.Assert(nd.Implies(perr == nil, valid), "port/succeeds-only-for-decimal-1-65535")
+	nd.Assert(a.HasValidPort() == (perr == nil), "port/HasValidPort-agrees-with-accessor")
 	if valid {
 		nd.Cover("valid-port")
 		if perr == nil {
@@ -215,8 +214,8 @@ func H_C17_HostDecorated() {
 	a := addrFrom(map[string]string{"host": host})
 	ip := net.ParseIP(host)
 	_, herr := a.Host()
-	nd.Assert((herr == nil) == (ip != nil), "hostdecorated/succeeds-iff-ip-literal")
-	nd.Assert(a.HasValidHost() == (ip != nil), "hostdecorated/HasValidHost-agrees")
+	nd.Assert(nd.Implies(herr == nil, ip != nil), "hostdecorated/succeeds-only-for-ip-literal")
+	nd.Assert(a.HasValidHost() == (herr == nil), "hostdecorated/HasValidHost-agrees-with-accessor")
 	nd.Assert(!nd.Called("net.ResolveIPAddr:non-literal"), "hostdecorated/no-name-resolution")
 	if ip != nil {
 		nd.Cover("valid-host")
